@@ -9,6 +9,10 @@ PROP = {'drive': ['Names'], 'modules': ['SfntV.Props.C14'],
                        'C14_language_tables_ok',
                        'C14_name_roundtrip',
                        'C14_name_encode_roundtrip',
+                       'C14_post_checked_ok_iff',
+                       'C14_post_checked_roundtrip',
+                       'C14_name_checked_ok_iff',
+                       'C14_name_checked_roundtrip',
                        'C14_name_order_independent',
                        'C14_tables_are_standard',
                        'C14_tag_roundtrip_partial',
@@ -49,16 +53,16 @@ PROP = {'drive': ['Names'], 'modules': ['SfntV.Props.C14'],
              'most preferred table); the x/text matcher is abstract, its answer (an index) is computed by the real '
              'matcher and passed to the model in stream names.choose; Choose panics (language.MustParse) on a map '
              'key that is not a BCP 47 tag - not modelled',
-             'C14_post_roundtrip carries the guard 258 + (number of non-standard names) <= 65536: beyond it '
-             'post.Info.Encode wraps the 16-bit glyphNameIndex silently (known finding C14-post-index-wrap, OPEN, '
-             'inside the stated domain of up to 65535 glyphs); proposed repair (encoder panics, as C08 did for the '
-             'same class): /verif/patches/C14/0001-post-encode-refuse-overflow.patch, tests pass unedited',
-             'C14_name_roundtrip carries the guards 6 + 12*records <= 65535 and storage <= 65535 bytes: beyond '
-             'them name.Info.Encode wraps the 16-bit storage offset / string offsets silently (known findings '
-             'C14-name-storage-wrap, C14-name-record-count-wrap, OPEN; DESIGN section 9 #25); proposed repair: '
-             '/verif/patches/C14/0002-name-encode-refuse-overflow.patch, tests pass unedited',
-             'negations of the guarded-off cases are shown by replay on the real code, not by Lean witnesses '
-             '(the witnesses need > 64 KiB of data in the kernel)'],
+             'capacity: the property quantifies over glyph-name lists of up to 65535 custom names and over Infos with '
+             'several strings of up to 32767 UTF-16 units; the post format 2.0 can index only 65278 non-standard '
+             'names (16-bit index 258+n) and the name table has 16-bit record-directory and string-storage offsets, so '
+             'no table exists for those inputs and a loud refusal is the only faithful outcome. After the repairs '
+             '96a7393 / ac2ee73 / 3d806bb the encoders panic there; the model has checked wrappers '
+             '(postEncodeChecked, nameEncodeChecked) and C14_post_checked_roundtrip / C14_name_checked_roundtrip '
+             'state, with NO size hypothesis: the encoder refuses loudly or the table round-trips; '
+             'C14_*_checked_ok_iff give the exact guards (postFits, nameFits). C14_post_roundtrip / '
+             'C14_name_roundtrip (older, sufficient guards) are kept because other properties import them. '
+             'The D predicates names.postrt / names.namert expect "panic" exactly where the model refuses'],
  'modelled_not_verified': ['Go string <-> []rune conversion (UTF-8) is the identity on lists of Unicode scalar '
                            'values; strings that are not valid UTF-8 are outside the model',
                            'unicode/utf16 Encode/Decode, sort.Slice (all sort keys distinct), bytes.Buffer and '
@@ -70,7 +74,7 @@ PROP = {'drive': ['Names'], 'modules': ['SfntV.Props.C14'],
                            'int32(round(angle*65536)); float rounding not modelled',
                            'name.Info.Encode after the repair visits the language ids in increasing order '
                            '(model: insertion sort of the regenerated tables); byte-exact correspondence for '
-                           'every Info, also with several tags per platform and beyond the capacity guards; '
+                           'every Info, also with several tags per platform; beyond the capacity both sides refuse; '
                            'C14_name_roundtrip still holds for every enumeration order'],
  'assumptions': ['NameDomain: Info keys distinct (Go maps), tags among the values of appleBCP/msBCP, Mac strings '
                  'in the Mac Roman repertoire, Windows strings valid Unicode, name ids 16-bit, Windows encoding '
@@ -104,7 +108,8 @@ LEVEL = {'text': 'Proof: (1) over the Mac Roman table regenerated from mac/encod
          'correspondence; Spec readers are my reading of the OpenType name/post chapters and the Apple tables. '
          'Repairs in /repo from this property: name.Decode reads Windows encoding 10; gtab.otfToBCP47 strips the '
          'space padding of short script tags; bcp47ToOtf picks the smallest matching tag (was: map order); '
-         'name.Info.Encode lays out storage in language-id order (was: map order). Three open known findings '
-         '(silent 16-bit wraps in post and name encoders) with proposed patches under /verif/patches/C14/.',
+         'name.Info.Encode lays out storage in language-id order (was: map order). The three former known findings (silent 16-bit wraps in the post and name encoders) are '
+         'repaired (96a7393, ac2ee73, 3d806bb: the encoders panic); their inputs are regression lines in '
+         'corpus/C14/regress.case.',
  'technique': 'Lean 4 proofs about codec/table models, kernel evaluation over regenerated tables, byte- and '
               'value-exact differential correspondence, independent Lean readers on real encoder output'}
